@@ -2,6 +2,7 @@
   Shape obligations (conf): facts about the CURRENT headers and sources, regenerated on every run by
   translator/shapes.py, that the models take for granted and that no history of practical size shows:
   qaconf: the line counter is an int, the nesting level one byte (bounded by the parser), section ids 64 bits.
+  The formatting macro DYNAMIC_VSPRINTF (error messages, `section.key` names) is the 1024-doubling loop of the model.
   A changed width or a new function-local mutable static breaks the `decide` below; the check of the
   family then reports the property as no longer shown (and searches for a failing input with its
   huge-size / concurrent-caller streams).
@@ -17,5 +18,14 @@ theorem widths_as_modelled : confWidths = [("aconf_lineno", 4), ("cbdata_level",
 /-- no function of this family keeps state in a function-local static object: results depend on the
     arguments (and the container) only, also when several threads are inside at once -/
 theorem no_hidden_static_state : confStatics = [] := by decide
+
+/-- the formatting macro DYNAMIC_VSPRINTF behind qaconf's error message (`_seterrmsg`) and qconfig's `section.key` names (`qstrdupf`) is the loop the model
+    `Str.dynVsprintf` transcribes: a first block of 1024 bytes, doubled until `vsnprintf` reports a length
+    below the block size (so the text fits WITH its terminator, for every length - Props: fmt_total /
+    dupf_eq). The third part pins the whole macro text: any rewrite (another start size, sizing the
+    retry from the reported length, another exit test) has to be transcribed into the model first. -/
+theorem fmt_macro_as_modelled : fmtInitSize = 1024 ∧ fmtGrowFactor = 2 ∧
+    fmtMacroText = "(s, f) do { size_t _strsize; for (_strsize = 1024; ; _strsize *= 2) { s = (char*)malloc(_strsize); if (s == NULL) { DEBUG(\"DYNAMIC_VSPRINTF(): can't allocate memory.\"); break; } va_list _arglist; va_start(_arglist, f); int _n = vsnprintf(s, _strsize, f, _arglist); va_end(_arglist); if (_n >= 0 && _n < _strsize) break; free(s); } } while(0)" :=
+  ⟨by decide, by decide, rfl⟩
 
 end Qlibc.Shapes.Conf
